@@ -10,6 +10,7 @@ CONSTANT DocMenu <- DMr
 CONSTANT Lims <- L0
 CONSTANT MaxSteps = 8
 CONSTANT Thin = 6
+CONSTANT KeepRoleHist = FALSE
 CONSTANT PageGap = FALSE
 SPECIFICATION Spec
 VIEW view
